@@ -20,6 +20,15 @@ CHECKS['C13'] = ('exploration', '§5 C13',
     'Pools are finite; a function that overflows only at another operand is missed. No reference values are compared (that is C02/C14/C20).',
     'bounded-exhaustive enumeration of call terms with a range oracle')
 
+CHECKS['C11'] = ('model_checking', '§5 C11',
+    'Complete finite product: 18 effectful builtins x 11 reaching/non-reaching paths (direct, in function, returned closure, map/filter/reduce callbacks, default parameter, nested fn, lazy element never forced, unselected branch, uncalled function) x permission assignments (quick: all 64 explicit + unset variants; thorough: all 3^6 allow/forbid/unset). Permitted => effect observed on the recording writer/clock/RNG; forbidden => PermissionError(id) and every double untouched for that call; unreached => nothing.',
+    'Writer, clock and RNG are recording doubles injected by the runner; regex and sleep have no double so only their outcome is checked.',
+    'exhaustive enumeration of a finite configuration product with recording doubles')
+CHECKS['C08'] = ('model_checking', '§5 C08',
+    'A corpus of programs with closed-form nesting depth, call count, tail-iteration count and search length is run under every limit value L from 1 to beyond the need, each of the four limits separately and all four combined: violation exactly at the documented threshold, otherwise dump and output identical to the unlimited run; the call counter read through the hook equals the closed form; library functions written in the language are checked for coverage and monotone thresholds. All host-call histories (run, run, erroring run, two kinds of reset) up to length 4 (6 thorough) on one runtime for L in 1..8 are compared with a counter model.',
+    'Closed-form counts are derived by hand from the book for each template; programs outside the corpus are not covered.',
+    'fault-point sweep over every limit value + explicit-state enumeration of host-call histories vs counter model')
+
 NA = {
 }
 
